@@ -284,7 +284,11 @@ def corruptions(ref, op, payload, other_variant):
             return
         # composite
         emit("obj<-scalar@" + pstr, mutate(path, set_to(5)))
-        emit("obj<-list@" + pstr, mutate(path, set_to([])))
+        Rv = v.get("__typename") if s.kind(b) != "object" else b
+        if [k2 for k2 in ref.collect(sub, Rv) if k2 != "__typename"] or s.kind(b) != "object":
+            # (a `{ __typename }`-only object selection is an empty struct, which serde also reads from `[]`;
+            # the property does not speak about that, so it is not generated)
+            emit("obj<-list@" + pstr, mutate(path, set_to([])))
         walk_scope(v, sub, b, path, pstr)
 
     def walk_scope(obj, items, static_type, path, pstr):
@@ -302,7 +306,8 @@ def corruptions(ref, op, payload, other_variant):
                         emit("unknown-typename@" + hs, mutate(here, set_to("Zzz_Unknown_Type")), ("unknown", sorted(k for k in common if k != "__typename")))
                     else:
                         emit("unknown-typename@" + hs, mutate(here, set_to("Zzz_Unknown_Type")))
-                    emit("typename<-int@" + hs, mutate(here, set_to(7)))
+                    # a non-string tag: an error, or - with the other-variant option - possibly the Unknown variant
+                    emit("typename<-int@" + hs, mutate(here, set_to(7)), ("unknown-or-err", []) if other_variant else "err")
                 continue
             f = s.field(R, it[2]) or s.field(static_type, it[2])
             t = f["type"]
